@@ -92,6 +92,24 @@ func C01_Alias() {
 	nd.Observe(Skel(cmds))
 }
 
+// C01_AliasQ: the quick form of C01_Alias: alias a is one free ASCII byte
+// (optionally followed by a blank), alias b is "x"; the input uses both.
+func C01_AliasQ() {
+	env := interp.NewExecEnv("sh")
+	v := nd.Str(1)
+	if nd.Choice(2) == 1 {
+		v += " "
+	}
+	env.Aliases["a"] = v
+	env.Aliases["b"] = "x"
+	cmds, _, err, _ := parseRunes(env, []rune("a b; a"))
+	if err == nil && len(cmds) > 0 {
+		nd.Cover("accepted")
+	}
+	nd.Observe(errStr(err))
+	nd.Observe(Skel(cmds))
+}
+
 // C01_Sources: the four source forms on concrete witnesses (the type switch
 // in open and the std decoders).
 func C01_Sources() {
